@@ -6,7 +6,7 @@ out=$1; prop=$2; n=$3
 export GOFLAGS=-mod=mod GOPROXY=off GOSUMDB=off GOTOOLCHAIN=local
 d=$out/$n
 wt=/tmp/seedverify_${prop}_$n
-git -C /repo worktree add -q --detach $wt HEAD 2>/dev/null || { echo "$prop/$n worktree-failed"; exit 1; }
+flock /tmp/seedwt.lock git -C /repo worktree add -q --detach $wt HEAD 2>/dev/null || { echo "$prop/$n worktree-failed"; exit 1; }
 cd $wt
 pkgdir=$(grep -m1 -o 'internal/[a-z]*\|^// .*profile/\|profile' $d/demo_test.go | head -1)
 # find package dir from the package clause + comment
@@ -25,5 +25,5 @@ if go test -vet=off -count=1 ./... >/tmp/seed_suite_$prop$n.log 2>&1; then res="
 cp $d/demo_test.go $pdir/zz_seeded_demo_test.go
 if go test -vet=off -count=1 -run 'TestSeeded' ./$pdir >/tmp/seed_mut_$prop$n.log 2>&1; then res="$res mutant-demo:PASS(bad)"; else res="$res mutant-demo:FAIL(good)"; fi
 cd /
-git -C /repo worktree remove --force $wt
+flock /tmp/seedwt.lock git -C /repo worktree remove --force $wt
 echo "$prop/$n pkg=$pdir $res"
